@@ -1,4 +1,5 @@
 #!/bin/sh
+exec </dev/null   # children (cargo's `rustc -` probe) must not read an inherited stdin
 # Builds, offline, everything the `capi` engine needs into $OUT (default /verif/.cache/capi):
 #   libautomerge_core.a  (cargo build -p automerge-c; `staticlib`)
 #   automerge.h          (written by the crate's build.rs through cbindgen when CBINDGEN_TARGET_DIR is
